@@ -112,3 +112,44 @@ Proof.
     by (vm_compute; reflexivity).
   rewrite E in H. cbn in H. inversion H. reflexivity.
 Qed.
+
+(* ------------------------------------------------------------------ the receiver's side *)
+
+Lemma rx_stranded_b_iff : forall s, rx_stranded_b s = true <-> RxStranded s.
+Proof.
+  intro s. unfold rx_stranded_b, RxStranded, all_dead.
+  rewrite !andb_true_iff, orb_true_iff, !forallb_seq_iff, !negb_true_iff.
+  split.
+  - intros [[[[A B] C] D] E]. split; [|split; [exact B|split; [|split; [exact D|]]]].
+    + intros t Ht. apply negb_true_iff. apply A. exact Ht.
+    + destruct (rx s); try discriminate. reflexivity.
+    + destruct E as [E|E].
+      * left. destruct (buf s); [discriminate|discriminate].
+      * right. intros t Ht. apply negb_true_iff. apply E. exact Ht.
+  - intros [A [B [C [D E]]]]. repeat split; try assumption.
+    + intros t Ht. apply negb_true_iff. apply A. exact Ht.
+    + rewrite C. reflexivity.
+    + destruct E as [E|E].
+      * left. destruct (buf s); [exfalso; apply E; reflexivity|reflexivity].
+      * right. intros t Ht. apply negb_true_iff. apply E. exact Ht.
+Qed.
+
+(* Witness 4: strict executor, one sender with one send.  The receiver parks on the empty
+   channel; the (finished) sender calls close_this_sender -- what Sink::poll_close does --
+   which drops the weak count without waking the receiver: it stays parked although a poll
+   would now return None. *)
+Definition w4_progs : list (list (list item)) := [[[1%N]]].
+Definition w4_trace : list label := [Poll 0; PollRx; PollRx; CloseSender 0].
+
+Lemma no_rx_strand_refuted :
+  exists s, single_progs w4_progs = true /\
+            reachable strict (init (Some 1) w4_progs) w4_trace s /\ RxStranded s.
+Proof.
+  destruct (run_enabled strict (init (Some 1) w4_progs) w4_trace) as [s|] eqn:E;
+    [|vm_compute in E; discriminate].
+  exists s. split; [reflexivity|]. split; [apply run_enabled_reachable; exact E|].
+  apply rx_stranded_b_iff.
+  assert (H : option_map rx_stranded_b (run_enabled strict (init (Some 1) w4_progs) w4_trace) = Some true)
+    by (vm_compute; reflexivity).
+  rewrite E in H. cbn in H. inversion H. reflexivity.
+Qed.
